@@ -12,6 +12,15 @@ use srtla_core::selection::enhanced::in_flight_cap_exceeded;
 use srtla_send::sender::SequenceTracker;
 use srtla_send::sender::verif_hooks::{ConnIoMap, handle_srt_packet};
 
+use std::net::{IpAddr, Ipv4Addr, UdpSocket as StdUdp};
+use std::sync::Arc;
+
+use smallvec::SmallVec;
+use srtla_core::connection::{LinkPhase, SrtlaConnection};
+use srtla_core::utils::verif_clock;
+use srtla_send::net::{BatchUdpSocket, SourceIpBinder};
+use srtla_send::sender::verif_hooks::{self as vh, ConnIo};
+
 use crate::c12::c12_step;
 use crate::c13::*;
 use crate::common::*;
@@ -59,10 +68,131 @@ pub fn probe(w: &mut World, tracker: &mut SequenceTracker, cfg: &Cfg, last: Opti
     let grew = w.conns.iter().zip(q0.iter()).any(|(c, q)| c.batch_sender.queued_count() > *q);
     let routed = if grew { last_sel } else { None };
     let post: Vec<String> = w.conns.iter().map(link_lit).collect();
-    let text = format!("mkCase {} {} {} [{}] {} (mkP {} {}) [{}] [{}] {}",
+    let text = format!("CDec (mkCase {} {} {} [{}] {} (mkP {} {}) [{}] [{}] {})",
         cfg.lit(), optz(last.map(|v| v as i128)), now, ins.join(";"), boolc(p.critical), boolc(p.data), boolc(p.retr),
         pre.join(";"), post.join(";"), optz(routed.map(|v| v as i128)));
     (text, routed)
+}
+
+
+// ---------------------------------------------------------------- fault histories on real sockets
+fn mk_uplink_socket(local: IpAddr, remote: SocketAddr) -> std::io::Result<BatchUdpSocket> {
+    let sock = socket2::Socket::new(socket2::Domain::IPV4, socket2::Type::DGRAM, Some(socket2::Protocol::UDP))?;
+    sock.bind(&SocketAddr::new(local, 0).into())?;
+    sock.connect(&remote.into())?;
+    sock.set_nonblocking(true)?;
+    BatchUdpSocket::new(sock)
+}
+
+/// stream-data datagrams (SRT data: first bit clear, at least a header) waiting on a receiver socket
+fn drain_data(r: &StdUdp) -> i128 {
+    let mut buf = [0u8; 2048];
+    let mut n = 0i128;
+    let mut idle = 0;
+    while idle < 2 {
+        match r.recv(&mut buf) {
+            Ok(k) => { if k >= 16 && buf[0] & 0x80 == 0 { n += 1; } idle = 0; }
+            Err(_) => { idle += 1; std::thread::yield_now(); }
+        }
+    }
+    n
+}
+
+/// One fault history: REAL `handle_srt_packet` (session established), `flush_all_batches`,
+/// `mark_for_recovery`, `reconnect_uplink`, the REG3 arm, on links with real loopback sockets.
+/// Returns the `CFault [...]` literal.
+async fn fault_history(rng: &mut Rng, run: &mut Run, case_no: u64) -> std::io::Result<String> {
+    let n = 2 + rng.below(2) as usize;
+    let mut now = 300_000 + rng.below(100_000);
+    verif_clock::set(Some(now));
+    let mut conns: SmallVec<SrtlaConnection, 4> = SmallVec::new();
+    let mut io: ConnIoMap = std::collections::HashMap::new();
+    let mut rx = vec![];
+    for j in 0..n {
+        let r = StdUdp::bind("127.0.0.1:0")?;
+        r.set_nonblocking(true)?;
+        let remote = r.local_addr()?;
+        let ip = IpAddr::V4(Ipv4Addr::new(127, 0, 0, 2 + j as u8));
+        let conn_id = 0x4000 + case_no * 16 + j as u64;
+        let mut c = SrtlaConnection::new_registering(conn_id, format!("f{}", j), ip, now);
+        c.connected = true;
+        c.phase = LinkPhase::Live;
+        c.last_received = Some(now);
+        c.reconnection.connection_established_ms = now;
+        io.insert(conn_id, ConnIo { socket: Arc::new(mk_uplink_socket(ip, remote)?), binder: Arc::new(SourceIpBinder), remote });
+        conns.push(c);
+        rx.push(r);
+    }
+    let cfg = Cfg { guard: rng.chance(3, 4), classic: rng.chance(1, 3), ..default_cfg() };
+    let snap = cfg.snapshot();
+    let mut tracker = SequenceTracker::new();
+    let mut last_sel: Option<usize> = None;
+    let mut client: Option<SocketAddr> = None;
+    let cw = CriticalWindow::new();
+    let src: SocketAddr = "127.0.0.1:9".parse().unwrap();
+    let mut seq = 5000u32 + (case_no as u32) * 64;
+    let mut steps: Vec<String> = vec![];
+    let len = 8 + rng.below(16);
+    for _ in 0..len {
+        let pre: Vec<bool> = conns.iter().map(|c| c.connected).collect();
+        let r = rng.below(100);
+        let kind;
+        if r < 50 {
+            kind = 0;
+            // live links hear from the receiver now and then (they stay inside the liveness window)
+            for c in conns.iter_mut() { if c.connected && rng.chance(3, 4) { c.last_received = Some(now); } }
+            let mut buf = [0u8; 1500];
+            seq += 1;
+            buf[0..4].copy_from_slice(&(seq & 0x7fff_ffff).to_be_bytes());
+            buf[4] = if rng.chance(1, 5) { 0x04 } else { 0x00 };
+            verif_clock::set(Some(now));
+            vh::handle_srt_packet(Ok((32 + rng.below(900) as usize, src)), &mut buf, &mut conns, &io, &mut last_sel,
+                                  &mut tracker, &mut client, true, &snap, &cw).await;
+            run.count("fault:client");
+        } else if r < 68 {
+            kind = 1;
+            now += *rng.pick(&[15u64, 16, 20, 40, 100]);
+            verif_clock::set(Some(now));
+            vh::flush_all_batches(&mut conns, &io).await;
+            run.count("fault:flush_tick");
+        } else if r < 80 {
+            kind = 2;
+            let i = rng.below(n as u64) as usize;
+            conns[i].mark_for_recovery();         // what housekeeping does when the socket cannot be re-created
+            run.count("fault:soft_reset");
+        } else if r < 88 {
+            kind = 3;
+            let i = rng.below(n as u64) as usize;
+            let id = conns[i].conn_id;
+            verif_clock::set(Some(now));
+            if let Some(e) = io.get_mut(&id) {
+                if vh::reconnect_uplink(&mut conns[i], e, now).await.is_err() { conns[i].mark_for_recovery(); }
+                // the receiver side of a re-created socket is unchanged (same remote)
+            }
+            run.count("fault:reconnect");
+        } else if r < 96 {
+            kind = 4;
+            let i = rng.below(n as u64) as usize;
+            let c = &mut conns[i];
+            // the REG3 arm of process_uplink_packet
+            c.clear_pre_registration_state(now);
+            c.connected = true;
+            c.last_received = Some(now);
+            if c.reconnection.connection_established_ms == 0 { c.reconnection.connection_established_ms = now; }
+            c.phase = LinkPhase::Live;            // warm-up over (RTT probes answered)
+            run.count("fault:reg3");
+        } else {
+            kind = 5;
+            now += *rng.pick(&[1u64, 50, 999, 4999, 5001]);
+            run.count("fault:idle");
+        }
+        let tx: Vec<i128> = rx.iter().map(drain_data).collect();
+        if pre.iter().zip(tx.iter()).any(|(c, t)| !*c && *t > 0) { run.count("fault:tx_while_down"); }
+        let q: Vec<i128> = conns.iter().map(|c| c.batch_sender.queued_count() as i128).collect();
+        steps.push(format!("mkFS {} {} {} {}", kind, blist(&pre), zlist(tx.into_iter()), zlist(q.into_iter())));
+    }
+    verif_clock::set(None);
+    Ok(format!("CFault [{}]", steps.join(";")))
 }
 
 pub fn run(seed: u64, tier: &str, out: &std::path::Path, _extra: &[(String, String)]) -> std::io::Result<()> {
@@ -113,6 +243,18 @@ pub fn run(seed: u64, tier: &str, out: &std::path::Path, _extra: &[(String, Stri
             if rec.w.conns.iter().any(|c| c.is_stall_gated()) { run.count("state:some_link_gated"); }
             if let Some(r) = routed { sc.last = Some(r); }
             run.push("probe", true, text);
+        }
+    }
+    // fault histories (link dies, soft reset, reconnect, re-registration) with the flush tick in between
+    {
+        let rt = tokio::runtime::Builder::new_current_thread().enable_all().build().expect("tokio runtime");
+        let nfault = if thorough { 1500 } else { 150 };
+        for k in 0..nfault {
+            let mut r2 = rng.fork(0xFA17 + k as u64);
+            match rt.block_on(fault_history(&mut r2, &mut run, k as u64)) {
+                Ok(text) => run.push("fault_history", true, text),
+                Err(e) => run.note(format!("fault history {} skipped: {}", k, e)),
+            }
         }
     }
     srtla_core::utils::verif_clock::set(None);
